@@ -121,6 +121,13 @@ class Interp:
                     m = self.factory.methods.get(n.attr)
                     if m is not None:
                         todo.append(m)
+        # ... or named by a string constant there or in a class-level table those functions mention (rows of names for getattr)
+        tables = [self.factory.attrs[a] for a in sorted(filled) if a in self.factory.attrs]
+        scanned = [self.prog.funcs[q].node for q in seen if q in self.prog.funcs] + tables
+        for node in scanned:
+            for n in ast.walk(node):
+                if isinstance(n, ast.Constant) and isinstance(n.value, str) and n.value in cands:
+                    filled.add(n.value)
         regs = [c for c in cands if c in filled]
         # which of them hold a sequence of requests per address (a deque) rather than a dict keyed by identifier: the registry is
         # mentioned together with `deque` in one statement / one row of a table of buildProtocol (or of what it calls)
@@ -130,8 +137,12 @@ class Interp:
             if fn is None:
                 continue
             rows = [n for n in ast.walk(fn.node) if isinstance(n, (ast.Tuple, ast.Assign, ast.Expr))]
+            if fn.qual == bp.qual:
+                for tb in tables:
+                    rows += [n for n in ast.walk(tb) if isinstance(n, (ast.Tuple, ast.Call))]
             for n in rows:
                 names = {x.attr for x in ast.walk(n) if isinstance(x, ast.Attribute) and isinstance(x.value, ast.Name) and x.value.id == "self" and x.attr in regs}
+                names |= {x.value for x in ast.walk(n) if isinstance(x, ast.Constant) and isinstance(x.value, str) and x.value in regs}
                 has_deque = any(isinstance(x, ast.Name) and x.id == "deque" for x in ast.walk(n))
                 if has_deque and len(names) == 1:
                     self.seq_registries |= names
